@@ -1559,10 +1559,11 @@ void MDSDRV_Linker::add_song(RIFF& mds, const std::string& filename)
 			group = chunk.get_data();
 	}
 
-	check_version(ver[0], ver[1]);
-
-	if(!seq.size() || dblk.get_type() != RIFF::TYPE_LIST)
+	// the version and the sequence header are read below: both need two bytes
+	if(ver.size() < 2 || seq.size() < 2 || dblk.get_type() != RIFF::TYPE_LIST)
 		throw InputError(nullptr, ".MDS data is malformed");
+
+	check_version(ver[0], ver[1]);
 
 	uint16_t seq_sdata = (seq[0] << 8) | seq[1];
 	dblk.rewind();
